@@ -540,7 +540,12 @@ type runOut struct {
 	terms []string
 }
 
-func runCase(c Case, tmp string, res *lib.Result) []string {
+func runCase(c Case, tmp string, res *lib.Result) (ret []string) {
+	defer res.Recover(c)
+	return runCaseRaw(c, tmp, res)
+}
+
+func runCaseRaw(c Case, tmp string, res *lib.Result) []string {
 	dir, _ := os.MkdirTemp(tmp, "c09-")
 	defer os.RemoveAll(dir)
 	r := lib.NewRand(c.Seed)
